@@ -45,6 +45,8 @@ PROP = dict(
     mandatory_all=["compressed_pattern_g1g2g3g5:xx0x", "compressed_pattern_g1g2g3g5:xxx0", "excluded_input_error",
                    "member:true", "member:false", "x:zero", "x:minus_one", "karabina_g3_zero", "karabina_g5_zero", "len=0",
                    "glv:short_long", "glv:long_short", "glv:zero_long", "glv:long_zero", "glv:short_short", "glv:long_long",
+                   "acc:cancel_all,len%4=0", "acc:cancel_coord,len%4=0", "acc:coord_qm1,len%4=0", "acc:coord_one,len%4=0", "acc:max_sum_2q-2,len%4=0",
+                   "kwords:00x0", "kwords:0x00", "kwords:x000", "kwords:xxx0", "kwords:xx0x", "kwords:x0xx", "kwords:0xxx", "kwords_negative",
                    "glv_len:short_over", "glv_len:w64_over", "glv_len:over_short", "glv_len:over_w64", "glv_len:w64_long", "glv_len:long_w64"],
     jobs=[
         dict(name="ring_lo", pkg="c06", run="^TestC06_Ring$", shards=_levels(_CORE + _SMALL, False), checks=(6000, 40000)),
